@@ -380,6 +380,86 @@ class DB:
             self._callgraph = g
         return self._callgraph
 
+    def precise_callgraph(self):
+        """like callgraph() but a call that rustc resolved to one impl (`fr`) contributes only that edge"""
+        if getattr(self, "_pcg", None) is None:
+            ti = self.trait_impls()
+            g = {}
+            for f in self.fns.values():
+                if f.gen:
+                    continue
+                s = set()
+                for _, t in f.calls():
+                    fr, c = t.get("fr"), t.get("f")
+                    if fr and fr in self.fns:
+                        s.add(fr)
+                    elif c in self.fns:
+                        s.add(c)
+                    elif c in ti:
+                        s.update(i for i in ti[c] if i in self.fns)
+                for b in f.blocks:
+                    for st in b["s"]:
+                        for o in _stmt_operands(st):
+                            fnn = o.get("fn") if isinstance(o, dict) else None
+                            if fnn and fnn in self.fns:
+                                s.add(fnn)
+                    for o in b["t"].get("a", []):
+                        fnn = o.get("fn") if isinstance(o, dict) else None
+                        if fnn and fnn in self.fns:
+                            s.add(fnn)
+                for c in self.children.get(f.id, []):
+                    s.add(c.id)
+                g[f.id] = s
+            self._pcg = g
+        return self._pcg
+
+    def recursive_sccs(self):
+        """strongly connected components of precise_callgraph() that contain a cycle (iterative Tarjan)"""
+        g = self.precise_callgraph()
+        index, low, onst, st, out = {}, {}, set(), [], []
+        ctr = 0
+        for root in sorted(g):
+            if root in index:
+                continue
+            work = [(root, iter(sorted(g[root])))]
+            index[root] = low[root] = ctr
+            ctr += 1
+            st.append(root)
+            onst.add(root)
+            while work:
+                v, it = work[-1]
+                adv = False
+                for w in it:
+                    if w not in g:
+                        continue
+                    if w not in index:
+                        index[w] = low[w] = ctr
+                        ctr += 1
+                        st.append(w)
+                        onst.add(w)
+                        work.append((w, iter(sorted(g[w]))))
+                        adv = True
+                        break
+                    elif w in onst:
+                        low[v] = min(low[v], index[w])
+                if adv:
+                    continue
+                work.pop()
+                if work:
+                    u = work[-1][0]
+                    low[u] = min(low[u], low[v])
+                if low[v] == index[v]:
+                    comp = []
+                    while True:
+                        w = st.pop()
+                        onst.discard(w)
+                        comp.append(w)
+                        if w == v:
+                            break
+                    if len(comp) > 1 or v in g[v]:
+                        out.append(sorted(comp))
+        return out
+
     def reachable(self, roots):
         g = self.callgraph()
         seen = set()
